@@ -103,7 +103,6 @@ def model_check(tier, workers=4):
         mcs.append(mc("MC_ElectFn", "MC_ElectFn_mirror4.cfg", workers=workers, timeout=1200, coverage=False))
         mcs.append(mc("MC_ElectFn", "MC_ElectFn_table4.cfg", workers=workers, timeout=2400, coverage=False))
         mcs.append(mc("MC_ClusterElect", "MC_ClusterElect_out3.cfg", workers=workers, timeout=3000))
-        mcs.append(mc("MC_ClusterElect", "MC_ClusterElect_k3.cfg", workers=workers, timeout=3000))
     for m in mcs:
         if m["violated"]:
             log(m["tail"])
